@@ -65,3 +65,34 @@ def ledger_entries(sem, effects, cells):
             out.append({"vis": vis, "bb": bb, "cell": cell, "field": f, "key": sem.label(key) if key is not None else None,
                         "kexpr": key, "what": what, "kind": kind})
     return out
+
+
+def stale_reads(sem, effects, cells):
+    """read-modify-write discipline: a value saved to a ledger cell that was computed from an
+    earlier load of the same cell must not have another write to that cell between the load
+    and the save (the keys may alias - e.g. sender == recipient - and the save would then
+    overwrite the other write with a value computed from a stale read).
+    Returns [(visit, save bb, load bb, intervening write bb, cell)]."""
+    from .expr import find
+    w = sem.w
+    out = []
+    writes = {}
+    for (vis, bb, kind, cell, key, val, e) in effects:
+        if cell in cells and kind in ("write", "update", "remove"):
+            writes.setdefault((id(vis), cell), []).append(bb)
+    for (vis, bb, kind, cell, key, val, e) in effects:
+        if cell not in cells or kind != "write" or val is None:
+            continue
+        v = w.ident(val)
+        loads = find(v, lambda y: y.op == "call" and y.site is not None and y.site[0] == vis.body.path and
+                     (lambda so: so is not None and so[0] == "read" and so[1] == cell)(sem.storage_op(y)))
+        for ld in loads:
+            lbb = ld.site[1]
+            cfg = vis.be.cfg
+            after_load = cfg.reach([lbb])
+            for wb in writes.get((id(vis), cell), []):
+                if wb == bb or wb == lbb:
+                    continue
+                if wb in after_load and bb in cfg.reach([wb]) and not cfg.dominates(bb, wb):
+                    out.append((vis, bb, lbb, wb, cell))
+    return out
